@@ -655,13 +655,41 @@ func c19Outbound(x *c19World, spec c19Spec, res *core.CaseResult, verbose bool, 
 			return strings.Join(parts, ",")
 		}
 		b0, other0 := bal(), bankOther()
-		before := c.Dump(c.Ctx)
-		var r chain.Result
-		if f.ending == "timeout" {
-			r = x.loop.Timeout(c.Ctx, f.pkt)
-		} else {
-			r = x.loop.Ack(c.Ctx, f.pkt, f.ack)
+		relay := func() chain.Result {
+			if f.ending == "timeout" {
+				return x.loop.Timeout(c.Ctx, f.pkt)
+			}
+			return x.loop.Ack(c.Ctx, f.pkt, f.ack)
 		}
+		if fixture && !replay && f.ending != "ack-success" && rng.IntN(3) == 0 {
+			// a fault between send and refund: governance has switched the token's conversion off when the
+			// relayer arrives. The refund cannot be made in ERC-20 form now, so the relay has to be refused
+			// without any effect (the relayer retries later) -- or be accepted with a full ERC-20 refund.
+			toggle := &erc20types.MsgToggleTokenConversion{Authority: chain.GovAuthority(), Token: x.usdt.Base}
+			if tr := c.Msg(toggle); tr.OK() {
+				pre := c.Dump(c.Ctx)
+				r1 := relay()
+				res.Count("relays_while_conversion_off", 1)
+				if verbose {
+					fmt.Printf("%s seq=%d relayed while conversion is off: ok=%v %s\n", f.ending, f.pkt.Sequence, r1.OK(), short(r1.ErrString()))
+				}
+				if r1.OK() {
+					if got := new(big.Int).Sub(bal(), b0); got.Cmp(f.amt) != 0 || bankOther() != other0 {
+						res.Violate("C19/refund-wrong-form/"+f.ending+"/conversion-off"+sfx, "%s of a transfer of %s was accepted while the token's conversion was switched off: the sender's ERC-20 balance changed by %s and its coins %q -> %q (the refund must come back as ERC-20, or the relay be refused until it can)", f.ending, f.amt, got, other0, bankOther())
+					}
+				} else if d := chain.Diff(pre, c.Dump(c.Ctx)); len(d) > 0 {
+					res.Violate("C19/refused-relay-had-effect/"+f.ending+sfx, "%s refused while conversion was off, but state changed: %s", f.ending, d[0].String())
+				}
+				c.Msg(toggle)
+				if r1.OK() {
+					f.done = true
+					return
+				}
+				b0, other0 = bal(), bankOther()
+			}
+		}
+		before := c.Dump(c.Ctx)
+		r := relay()
 		if replay {
 			// ibc-go answers a redundant relay with a successful no-op; whatever the answer, nothing may change
 			if d := chain.Diff(before, c.Dump(c.Ctx)); len(d) > 0 {
